@@ -7,13 +7,18 @@ From RopeVerif.C03 Require Import Flow Dataflow FlowProofs LiveProofs.
 Import ListNotations.
 
 (* ------------------------------------------------------------------ signals a region can produce *)
-Lemma exec_nobc : forall loop, loop_sig loop ->
-  (forall s st o, unmatched_bc_s s = false ->
-      fst (fst (exec_s loop s st o)) <> Brk /\ fst (fst (exec_s loop s st o)) <> Cont)
-  /\ (forall ss st o, existsb unmatched_bc_s ss = false ->
-      fst (fst (exec_b loop ss st o)) <> Brk /\ fst (fst (exec_b loop ss st o)) <> Cont).
+Definition nobc (r : res) : Prop := fst (fst r) <> Brk /\ fst (fst r) <> Cont.
+
+(* a loop only lets a break/continue out through its else-clause *)
+Definition loop_nobc (loop : loopk -> store -> list Z -> res) : Prop :=
+  (forall c b e st o, existsb unmatched_bc_s e = false -> nobc (loop (KWhile c b e) st o))
+  /\ (forall x i hi b e st o, existsb unmatched_bc_s e = false -> nobc (loop (KFor x i hi b e) st o)).
+
+Lemma exec_nobc : forall loop, loop_nobc loop ->
+  (forall s st o, unmatched_bc_s s = false -> nobc (exec_s loop s st o))
+  /\ (forall ss st o, existsb unmatched_bc_s ss = false -> nobc (exec_b loop ss st o)).
 Proof.
-  intros loop LS.
+  intros loop [LW LF]. unfold nobc.
   apply (stmt_blk_ind
            (fun s => forall st o, unmatched_bc_s s = false ->
                 fst (fst (exec_s loop s st o)) <> Brk /\ fst (fst (exec_s loop s st o)) <> Cont)
@@ -25,8 +30,8 @@ Proof.
   - intros l c a b Ha Hb st o H. simpl in H. apply orb_false_iff in H. destruct H as [H1 H2].
     rewrite exec_s_if. destruct (eval st c) as [v|]; [|simpl; split; discriminate].
     destruct (Z.eqb v 0); auto.
-  - intros l c b _ st o _. simpl. apply LS.
-  - intros l x e b _ st o _. simpl. destruct (eval st e); [apply LS | simpl; split; discriminate].
+  - intros l c b e _ _ st o H. simpl in H. simpl. apply LW. exact H.
+  - intros l x e b els _ _ st o H. simpl in H. simpl. destruct (eval st e); [apply LF; exact H | simpl; split; discriminate].
   - intros l e st o _. simpl. destruct (eval st e); simpl; split; discriminate.
   - intros l st o _. simpl. split; discriminate.
   - intros l st o H. simpl in H. discriminate.
@@ -46,6 +51,18 @@ Proof.
     + destruct Hs as [_ Hs]. congruence.
 Qed.
 
+Lemma exec_k_nobc : forall n, loop_nobc (exec_k n).
+Proof.
+  induction n as [|m IH].
+  - split; intros; simpl; split; discriminate.
+  - destruct (exec_nobc _ IH) as [_ HB]. destruct IH as [IW IF]. split.
+    + intros c b e st o H. unfold nobc. simpl. destruct (eval st c) as [v|]; [|simpl; split; discriminate].
+      destruct (Z.eqb v 0); [apply HB; exact H|].
+      destruct (exec_b (exec_k m) b st o) as [[sg st'] o']. destruct sg; simpl; try (split; discriminate); apply IW; exact H.
+    + intros x i hi b e st o H. unfold nobc. simpl. destruct (Z.leb hi i); [apply HB; exact H|].
+      destruct (exec_b (exec_k m) b (upd st x i) o) as [[sg st'] o']. destruct sg; simpl; try (split; discriminate); apply IF; exact H.
+Qed.
+
 Lemma count_ret_cons : forall s r, count_ret (s :: r) = count_ret_s s + count_ret r.
 Proof. reflexivity. Qed.
 
@@ -57,8 +74,10 @@ Qed.
 Definition is_ret (sg : sig) : bool := match sg with Ret _ => true | _ => false end.
 
 Definition loop_noret (loop : loopk -> store -> list Z -> res) : Prop :=
-  (forall c b st o, nocall b = true -> count_ret b = 0 -> is_ret (fst (fst (loop (KWhile c b) st o))) = false)
-  /\ (forall x i hi b st o, nocall b = true -> count_ret b = 0 -> is_ret (fst (fst (loop (KFor x i hi b) st o))) = false).
+  (forall c b e st o, nocall b = true -> nocall e = true -> count_ret b = 0 -> count_ret e = 0 ->
+      is_ret (fst (fst (loop (KWhile c b e) st o))) = false)
+  /\ (forall x i hi b e st o, nocall b = true -> nocall e = true -> count_ret b = 0 -> count_ret e = 0 ->
+      is_ret (fst (fst (loop (KFor x i hi b e) st o))) = false).
 
 Lemma exec_noret : forall loop, loop_noret loop ->
   (forall s st o, nocall_s s = true -> count_ret_s s = 0 -> is_ret (fst (fst (exec_s loop s st o))) = false)
@@ -75,8 +94,11 @@ Proof.
     change (count_ret a + count_ret b = 0) in H.
     rewrite exec_s_if. destruct (eval st c) as [v|]; [|reflexivity].
     destruct (Z.eqb v 0); [apply Hb | apply Ha]; auto; lia.
-  - intros l c b _ st o NC H. simpl. apply LW; assumption.
-  - intros l x e b _ st o NC H. simpl. destruct (eval st e); [apply LF; assumption | reflexivity].
+  - intros l c b e _ _ st o NC H. simpl in NC. apply andb_true_iff in NC. destruct NC as [NCb NCe].
+    change (count_ret b + count_ret e = 0) in H. simpl. apply LW; try assumption; lia.
+  - intros l x e b els _ _ st o NC H. simpl in NC. apply andb_true_iff in NC. destruct NC as [NCb NCe].
+    change (count_ret b + count_ret els = 0) in H. simpl.
+    destruct (eval st e); [apply LF; try assumption; lia | reflexivity].
   - intros l e st o _ H. simpl in H. discriminate.
   - reflexivity.
   - reflexivity.
@@ -96,12 +118,12 @@ Proof.
   induction n as [|m IH].
   - split; intros; reflexivity.
   - destruct (exec_noret _ IH) as [_ HB]. destruct IH as [IW IF]. split.
-    + intros c b st o NC H. simpl. destruct (eval st c) as [v|]; [|reflexivity].
-      destruct (Z.eqb v 0); [reflexivity|].
-      specialize (HB b st o NC H). destruct (exec_b (exec_k m) b st o) as [[sg st'] o']. simpl in HB.
+    + intros c b e st o NCb NCe Hb He. simpl. destruct (eval st c) as [v|]; [|reflexivity].
+      destruct (Z.eqb v 0); [apply HB; assumption|].
+      pose proof (HB b st o NCb Hb) as HB'. destruct (exec_b (exec_k m) b st o) as [[sg st'] o']. simpl in HB'.
       destruct sg; simpl; try reflexivity; try discriminate; apply IW; assumption.
-    + intros x i hi b st o NC H. simpl. destruct (Z.leb hi i); [reflexivity|].
-      specialize (HB b (upd st x i) o NC H). destruct (exec_b (exec_k m) b (upd st x i) o) as [[sg st'] o']. simpl in HB.
+    + intros x i hi b e st o NCb NCe Hb He. simpl. destruct (Z.leb hi i); [apply HB; assumption|].
+      pose proof (HB b (upd st x i) o NCb Hb) as HB'. destruct (exec_b (exec_k m) b (upd st x i) o) as [[sg st'] o']. simpl in HB'.
       destruct sg; simpl; try reflexivity; try discriminate; apply IF; assumption.
 Qed.
 
@@ -162,17 +184,21 @@ Qed.
 
 Lemma nocall_plug : forall lc h, nocall (plug lc h) = true -> nocall h = true.
 Proof.
-  induction lc as [pre R post | pre l c i IH b post | pre l c a i IH post | pre l c i IH post | pre l x e i IH post];
-    intros h H; simpl in H; rewrite !nocall_app in H.
-  - apply andb_true_iff in H. destruct H as [_ H]. apply andb_true_iff in H. tauto.
-  - apply andb_true_iff in H. destruct H as [_ H]. rewrite nocall_cons in H. apply andb_true_iff in H.
-    destruct H as [H _]. simpl in H. apply andb_true_iff in H. destruct H as [H _]. apply IH. exact H.
-  - apply andb_true_iff in H. destruct H as [_ H]. rewrite nocall_cons in H. apply andb_true_iff in H.
-    destruct H as [H _]. simpl in H. apply andb_true_iff in H. destruct H as [_ H]. apply IH. exact H.
-  - apply andb_true_iff in H. destruct H as [_ H]. rewrite nocall_cons in H. apply andb_true_iff in H.
-    destruct H as [H _]. simpl in H. apply IH. exact H.
-  - apply andb_true_iff in H. destruct H as [_ H]. rewrite nocall_cons in H. apply andb_true_iff in H.
-    destruct H as [H _]. simpl in H. apply IH. exact H.
+  induction lc; intros h H; simpl in H; rewrite !nocall_app in H;
+    apply andb_true_iff in H; destruct H as [_ H].
+  - apply andb_true_iff in H. tauto.
+  - rewrite nocall_cons in H. apply andb_true_iff in H. destruct H as [H _]. simpl in H.
+    apply andb_true_iff in H. destruct H as [H _]. apply IHlc. exact H.
+  - rewrite nocall_cons in H. apply andb_true_iff in H. destruct H as [H _]. simpl in H.
+    apply andb_true_iff in H. destruct H as [_ H]. apply IHlc. exact H.
+  - rewrite nocall_cons in H. apply andb_true_iff in H. destruct H as [H _]. simpl in H.
+    apply andb_true_iff in H. destruct H as [H _]. apply IHlc. exact H.
+  - rewrite nocall_cons in H. apply andb_true_iff in H. destruct H as [H _]. simpl in H.
+    apply andb_true_iff in H. destruct H as [H _]. apply IHlc. exact H.
+  - rewrite nocall_cons in H. apply andb_true_iff in H. destruct H as [H _]. simpl in H.
+    apply andb_true_iff in H. destruct H as [_ H]. apply IHlc. exact H.
+  - rewrite nocall_cons in H. apply andb_true_iff in H. destruct H as [H _]. simpl in H.
+    apply andb_true_iff in H. destruct H as [_ H]. apply IHlc. exact H.
 Qed.
 
 Lemma nocall_region : forall lc, nocall (orig lc) = true -> nocall (region lc) = true.
@@ -238,7 +264,7 @@ Section Outline.
         exfalso. apply mem_false in E1. apply E1. apply C1; [exact Hn|]. apply DL. unfold bound. rewrite G. reflexivity. }
     pose proof (live_sound Qsub Qsub_refl n R k0 sc s o NCR CVR RS) as LS.
     unfold exec in *.
-    pose proof (proj2 (exec_nobc (exec_k n) (exec_k_sig n)) R s o R_nobc) as NB.
+    pose proof (proj2 (exec_nobc (exec_k n) (exec_k_nobc n)) R s o R_nobc) as NB.
     pose proof (proj2 (exec_frame (exec_k n) (exec_k_frame n)) R sc o) as FR.
     pose proof (proj2 (exec_must (exec_k n) (exec_k_frame n)) R sc o) as MU.
     pose proof (tail_not_norm (exec_k n) R s o) as TN. rewrite <- HT in TN.
@@ -323,7 +349,7 @@ Section Outline.
     pose proof (live_sound Qtrue Qtrue_refl n R _ t1 t2 o NCR CV RL) as LS.
     destruct (region_call n t2 o M' m' DL DG C1 C2 C4) as [s' [EC EN]].
     pose proof (exec_frame_b n R t2 o) as FR.
-    pose proof (proj2 (exec_nobc (exec_k n) (exec_k_sig n)) R t1 o R_nobc) as NB.
+    pose proof (proj2 (exec_nobc (exec_k n) (exec_k_nobc n)) R t1 o R_nobc) as NB.
     pose proof (tail_not_norm (exec_k n) R t1 o) as TN. rewrite <- HT in TN.
     unfold exec in *. rewrite exec_b_single. rewrite EC. clear EC.
     destruct (exec_b (exec_k n) R t1 o) as [[sg1 u1] p1]. destruct (exec_b (exec_k n) R t2 o) as [[sg2 u2] p2].
@@ -362,29 +388,29 @@ Section Outline.
   Lemma dom_le_sub : forall s M M', dom_le s M -> (forall x, In x M -> In x M') -> dom_le s M'.
   Proof. intros s M M' H S x Hx. apply S. apply H. exact Hx. Qed.
 
-  Lemma while_sim : forall i, zip_P i -> region i = R -> forall c knn Mloop mloop,
-    nocall (orig i) = true -> conv_while c (orig i) knn = true ->
-    hole_conds (hole_info call i Mloop mloop (mk (live_while c (orig i) knn) knn (live_while c (orig i) knn))) ->
+  (* the region is in the body of a loop *)
+  Lemma while_sim : forall i, zip_P i -> region i = R -> forall c els kk Mloop mloop,
+    nocall (orig i) = true -> nocall els = true -> conv_while c (orig i) els kk = true ->
+    hole_conds (hole_info call i Mloop mloop (mk (live_while c (orig i) els kk) (kn kk) (live_while c (orig i) els kk))) ->
     (forall x, In x (defs (plug i [call])) -> In x Mloop) ->
-    forall n s1 s2 o, rel Qtrue (live_while c (orig i) knn) s1 s2 -> dom_le s2 Mloop -> dom_ge mloop s2 ->
-    res_rel Qtrue (mk knn [] []) (exec_k n (KWhile c (orig i)) s1 o) (exec_k n (KWhile c (plug i [call])) s2 o).
+    forall n s1 s2 o, rel Qtrue (live_while c (orig i) els kk) s1 s2 -> dom_le s2 Mloop -> dom_ge mloop s2 ->
+    res_rel Qtrue kk (exec_k n (KWhile c (orig i) els) s1 o) (exec_k n (KWhile c (plug i [call]) els) s2 o).
   Proof.
-    intros i ZP RG c knn Mloop mloop NC CV HC DS.
-    pose proof CV as CV0.
-    unfold conv_while in CV. apply andb_true_iff in CV. destruct CV as [CS CB].
+    intros i ZP RG c els kk Mloop mloop NC NCe CV HC DS.
+    unfold conv_while in CV. apply andb_true_iff in CV. destruct CV as [CV CE]. apply andb_true_iff in CV. destruct CV as [CS CB].
     pose proof (proj1 (subset_In _ _) CS) as CS'. clear CS. rename CS' into CS. unfold while_step in CS.
-    set (X := live_while c (orig i) knn) in *.
+    set (X := live_while c (orig i) els kk) in *.
     induction n as [|m IH]; intros s1 s2 o RL DL DG.
     - simpl. split; [reflexivity|]. split; [reflexivity|]. exact I.
     - simpl.
       rewrite (eval_rel Qtrue _ s1 s2 c RL) by (intros; apply CS; apply in_or_app; auto).
       destruct (eval s2 c) as [v|]; [|apply res_rel_err; exact I].
       destruct (Z.eqb v 0).
-      + split; [reflexivity|]. split; [reflexivity|]. simpl.
+      + apply (live_sound Qtrue Qtrue_refl m els kk s1 s2 o NCe CE).
         eapply rel_sub; [exact RL|]. intros; apply CS; apply in_or_app; right; apply in_or_app; auto.
-      + assert (RB : rel Qtrue (live_b (orig i) (mk X knn X)) s1 s2).
+      + assert (RB : rel Qtrue (live_b (orig i) (mk X (kn kk) X)) s1 s2).
         { eapply rel_sub; [exact RL|]. intros; apply CS; apply in_or_app; right; apply in_or_app; auto. }
-        pose proof (ZP RG m Mloop mloop (mk X knn X) s1 s2 o NC CB HC RB DL DG) as HB.
+        pose proof (ZP RG m Mloop mloop (mk X (kn kk) X) s1 s2 o NC CB HC RB DL DG) as HB.
         pose proof (exec_frame_b m (plug i [call]) s2 o) as FR.
         unfold exec in HB, FR.
         destruct (exec_b (exec_k m) (orig i) s1 o) as [[sg1 t1] o1].
@@ -399,23 +425,23 @@ Section Outline.
         * apply IH; assumption.
   Qed.
 
-  Lemma for_sim : forall i, zip_P i -> region i = R -> forall x knn Mloop mloop,
-    nocall (orig i) = true -> conv_for x (orig i) knn = true ->
-    hole_conds (hole_info call i Mloop (mloop ++ [x]) (mk (live_for x (orig i) knn) knn (live_for x (orig i) knn))) ->
+  Lemma for_sim : forall i, zip_P i -> region i = R -> forall x els kk Mloop mloop,
+    nocall (orig i) = true -> nocall els = true -> conv_for x (orig i) els kk = true ->
+    hole_conds (hole_info call i Mloop (mloop ++ [x]) (mk (live_for x (orig i) els kk) (kn kk) (live_for x (orig i) els kk))) ->
     (forall y, In y (x :: defs (plug i [call])) -> In y Mloop) ->
-    forall n j hi s1 s2 o, rel Qtrue (live_for x (orig i) knn) s1 s2 -> dom_le s2 Mloop -> dom_ge mloop s2 ->
-    res_rel Qtrue (mk knn [] []) (exec_k n (KFor x j hi (orig i)) s1 o) (exec_k n (KFor x j hi (plug i [call])) s2 o).
+    forall n j hi s1 s2 o, rel Qtrue (live_for x (orig i) els kk) s1 s2 -> dom_le s2 Mloop -> dom_ge mloop s2 ->
+    res_rel Qtrue kk (exec_k n (KFor x j hi (orig i) els) s1 o) (exec_k n (KFor x j hi (plug i [call]) els) s2 o).
   Proof.
-    intros i ZP RG x knn Mloop mloop NC CV HC DS.
-    unfold conv_for in CV. apply andb_true_iff in CV. destruct CV as [CS CB].
+    intros i ZP RG x els kk Mloop mloop NC NCe CV HC DS.
+    unfold conv_for in CV. apply andb_true_iff in CV. destruct CV as [CV CE]. apply andb_true_iff in CV. destruct CV as [CS CB].
     pose proof (proj1 (subset_In _ _) CS) as CS'. clear CS. rename CS' into CS. unfold for_step in CS.
-    set (Y := live_for x (orig i) knn) in *.
+    set (Y := live_for x (orig i) els kk) in *.
     induction n as [|m IH]; intros j hi s1 s2 o RL DL DG.
     - simpl. split; [reflexivity|]. split; [reflexivity|]. exact I.
     - simpl. destruct (Z.leb hi j).
-      + split; [reflexivity|]. split; [reflexivity|]. simpl.
+      + apply (live_sound Qtrue Qtrue_refl m els kk s1 s2 o NCe CE).
         eapply rel_sub; [exact RL|]. intros; apply CS; apply in_or_app; auto.
-      + assert (RB : rel Qtrue (live_b (orig i) (mk Y knn Y)) (upd s1 x j) (upd s2 x j)).
+      + assert (RB : rel Qtrue (live_b (orig i) (mk Y (kn kk) Y)) (upd s1 x j) (upd s2 x j)).
         { eapply rel_upd; [exact Qtrue_refl | exact RL|]. intros y Hy Hne. apply CS. apply in_or_app. right.
           apply In_remove. auto. }
         assert (DLu : dom_le (upd s2 x j) Mloop).
@@ -426,7 +452,7 @@ Section Outline.
         { intros y Hy. rewrite bound_upd. apply in_app_or in Hy. destruct Hy as [Hy|[Hy|[]]].
           - rewrite (DG y Hy). apply orb_true_r.
           - subst y. rewrite N.eqb_refl. reflexivity. }
-        pose proof (ZP RG m Mloop (mloop ++ [x]) (mk Y knn Y) (upd s1 x j) (upd s2 x j) o NC CB HC RB DLu DGu) as HB.
+        pose proof (ZP RG m Mloop (mloop ++ [x]) (mk Y (kn kk) Y) (upd s1 x j) (upd s2 x j) o NC CB HC RB DLu DGu) as HB.
         pose proof (exec_frame_b m (plug i [call]) (upd s2 x j) o) as FR.
         unfold exec in HB, FR.
         destruct (exec_b (exec_k m) (orig i) (upd s1 x j) o) as [[sg1 t1] o1].
@@ -435,6 +461,81 @@ Section Outline.
         assert (DL' : dom_le t2 Mloop).
         { eapply dom_le_sub; [eapply dom_le_frame; eauto|]. intros y Hy. apply in_app_or in Hy.
           destruct Hy as [Hy|Hy]; [exact Hy|]. apply DS. right. exact Hy. }
+        assert (DG' : dom_ge mloop t2).
+        { intros y Hy. apply (proj2 FR). rewrite bound_upd. rewrite (DG y Hy). apply orb_true_r. }
+        destruct sg1; simpl in E3; try (apply res_rel_err; exact I).
+        * apply IH; assumption.
+        * split; [reflexivity|]. split; [reflexivity|]. exact E3.
+        * apply IH; assumption.
+  Qed.
+
+  (* the region is in the else-clause of a loop: the loop itself is the same on both sides *)
+  Lemma whileE_sim : forall i, zip_P i -> region i = R -> forall c b kk Mloop mloop,
+    nocall b = true -> nocall (orig i) = true -> conv_while c b (orig i) kk = true ->
+    hole_conds (hole_info call i Mloop mloop kk) ->
+    (forall x, In x (defs b) -> In x Mloop) ->
+    forall n s1 s2 o, rel Qtrue (live_while c b (orig i) kk) s1 s2 -> dom_le s2 Mloop -> dom_ge mloop s2 ->
+    res_rel Qtrue kk (exec_k n (KWhile c b (orig i)) s1 o) (exec_k n (KWhile c b (plug i [call])) s2 o).
+  Proof.
+    intros i ZP RG c b kk Mloop mloop NCb NC CV HC DS.
+    unfold conv_while in CV. apply andb_true_iff in CV. destruct CV as [CV CE]. apply andb_true_iff in CV. destruct CV as [CS CB].
+    pose proof (proj1 (subset_In _ _) CS) as CS'. clear CS. rename CS' into CS. unfold while_step in CS.
+    set (X := live_while c b (orig i) kk) in *.
+    induction n as [|m IH]; intros s1 s2 o RL DL DG.
+    - simpl. split; [reflexivity|]. split; [reflexivity|]. exact I.
+    - simpl.
+      rewrite (eval_rel Qtrue _ s1 s2 c RL) by (intros; apply CS; apply in_or_app; auto).
+      destruct (eval s2 c) as [v|]; [|apply res_rel_err; exact I].
+      destruct (Z.eqb v 0).
+      + apply (ZP RG m Mloop mloop kk); try assumption.
+        eapply rel_sub; [exact RL|]. intros; apply CS; apply in_or_app; right; apply in_or_app; auto.
+      + assert (RB : rel Qtrue (live_b b (mk X (kn kk) X)) s1 s2).
+        { eapply rel_sub; [exact RL|]. intros; apply CS; apply in_or_app; right; apply in_or_app; auto. }
+        pose proof (live_sound Qtrue Qtrue_refl m b _ s1 s2 o NCb CB RB) as HB.
+        pose proof (exec_frame_b m b s2 o) as FR.
+        unfold exec in HB, FR.
+        destruct (exec_b (exec_k m) b s1 o) as [[sg1 t1] o1].
+        destruct (exec_b (exec_k m) b s2 o) as [[sg2 t2] o2].
+        destruct HB as [E1 [E2 E3]]. simpl in E1, E2, E3, FR. subst sg2 o2.
+        assert (DL' : dom_le t2 Mloop).
+        { eapply dom_le_sub; [eapply dom_le_frame; eauto|]. intros x Hx. apply in_app_or in Hx. destruct Hx; auto. }
+        assert (DG' : dom_ge mloop t2) by (eapply dom_ge_frame; eauto).
+        destruct sg1; simpl in E3; try (apply res_rel_err; exact I).
+        * apply IH; assumption.
+        * split; [reflexivity|]. split; [reflexivity|]. exact E3.
+        * apply IH; assumption.
+  Qed.
+
+  Lemma forE_sim : forall i, zip_P i -> region i = R -> forall x b kk Mloop mloop,
+    nocall b = true -> nocall (orig i) = true -> conv_for x b (orig i) kk = true ->
+    hole_conds (hole_info call i Mloop mloop kk) ->
+    (forall y, In y (x :: defs b) -> In y Mloop) ->
+    forall n j hi s1 s2 o, rel Qtrue (live_for x b (orig i) kk) s1 s2 -> dom_le s2 Mloop -> dom_ge mloop s2 ->
+    res_rel Qtrue kk (exec_k n (KFor x j hi b (orig i)) s1 o) (exec_k n (KFor x j hi b (plug i [call])) s2 o).
+  Proof.
+    intros i ZP RG x b kk Mloop mloop NCb NC CV HC DS.
+    unfold conv_for in CV. apply andb_true_iff in CV. destruct CV as [CV CE]. apply andb_true_iff in CV. destruct CV as [CS CB].
+    pose proof (proj1 (subset_In _ _) CS) as CS'. clear CS. rename CS' into CS. unfold for_step in CS.
+    set (Y := live_for x b (orig i) kk) in *.
+    induction n as [|m IH]; intros j hi s1 s2 o RL DL DG.
+    - simpl. split; [reflexivity|]. split; [reflexivity|]. exact I.
+    - simpl. destruct (Z.leb hi j).
+      + apply (ZP RG m Mloop mloop kk); try assumption.
+        eapply rel_sub; [exact RL|]. intros; apply CS; apply in_or_app; auto.
+      + assert (RB : rel Qtrue (live_b b (mk Y (kn kk) Y)) (upd s1 x j) (upd s2 x j)).
+        { eapply rel_upd; [exact Qtrue_refl | exact RL|]. intros y Hy Hne. apply CS. apply in_or_app. right.
+          apply In_remove. auto. }
+        pose proof (live_sound Qtrue Qtrue_refl m b _ (upd s1 x j) (upd s2 x j) o NCb CB RB) as HB.
+        pose proof (exec_frame_b m b (upd s2 x j) o) as FR.
+        unfold exec in HB, FR.
+        destruct (exec_b (exec_k m) b (upd s1 x j) o) as [[sg1 t1] o1].
+        destruct (exec_b (exec_k m) b (upd s2 x j) o) as [[sg2 t2] o2].
+        destruct HB as [E1 [E2 E3]]. simpl in E1, E2, E3, FR. subst sg2 o2.
+        assert (DL' : dom_le t2 Mloop).
+        { intros y Hy. destruct (In_dec_mem y (defs b)) as [Hd|Hd]; [apply DS; right; exact Hd|].
+          unfold bound in Hy. rewrite (proj1 FR y Hd) in Hy. rewrite get_upd in Hy.
+          destruct (N.eqb y x) eqn:E; [apply N.eqb_eq in E; subst y; apply DS; left; reflexivity|].
+          apply DL. exact Hy. }
         assert (DG' : dom_ge mloop t2).
         { intros y Hy. apply (proj2 FR). rewrite bound_upd. rewrite (DG y Hy). apply orb_true_r. }
         destruct sg1; simpl in E3; try (apply res_rel_err; exact I).
@@ -459,7 +560,8 @@ Section Outline.
 
   Lemma zip_sim : forall lc, zip_P lc.
   Proof.
-    induction lc as [pre R' post | pre l c i IH b post | pre l c a i IH post | pre l c i IH post | pre l x e i IH post];
+    induction lc as [pre R' post | pre l c i IH b post | pre l c a i IH post | pre l c lc IHlc els post | pre l x e lc IHlc els post
+                     | pre l c b lc IHlc post | pre l x e b lc IHlc post];
       intros RG n M m k s1 s2 o NC CV HC RL DL DG.
     - (* the region is here *)
       simpl in RG. subst R'.
@@ -511,36 +613,71 @@ Section Outline.
         eapply rel_sub; [exact RT|]. intros; apply in_or_app; right; apply in_or_app; auto.
     - (* inside a while loop *)
       simpl in RG.
-      change (orig (LWhile pre l c i post)) with (pre ++ [SWhile l c (orig i)] ++ post) in *.
-      change (plug (LWhile pre l c i post) [call]) with (pre ++ [SWhile l c (plug i [call])] ++ post).
+      change (orig (LWhile pre l c lc els post)) with (pre ++ [SWhile l c (orig lc) els] ++ post) in *.
+      change (plug (LWhile pre l c lc els post) [call]) with (pre ++ [SWhile l c (plug lc [call]) els] ++ post).
       destruct (nocall3 _ _ _ NC) as [NCp [NCm NCq]].
       pose proof (conv3 _ _ _ _ CV) as CVm.
       eapply seq_sim; eauto.
       intros t1 t2 o' RT DT GT. unfold exec. rewrite !exec_b_single. simpl exec_s.
-      rewrite live_b_single, live_s_while in RT. simpl kn in RT.
-      rewrite conv_b_single, conv_s_while in CVm. simpl kn in CVm.
-      rewrite nocall_single in NCm. simpl in NCm. fold (nocall (orig i)) in NCm.
-      eapply res_rel_loop; [| apply exec_k_sig | apply exec_k_sig | reflexivity].
-      eapply (while_sim i IH RG c (live_b post k) (M ++ defs pre ++ defs (plug i [call])) (m ++ mustd pre)); try assumption.
+      rewrite live_b_single, live_s_while in RT.
+      rewrite conv_b_single, conv_s_while in CVm.
+      rewrite nocall_single in NCm. simpl in NCm. apply andb_true_iff in NCm. destruct NCm as [NCb NCe].
+      fold (nocall (orig lc)) in NCb. fold (nocall els) in NCe.
+      eapply (while_sim lc IHlc RG c els _ (M ++ defs pre ++ defs (plug lc [call])) (m ++ mustd pre)); try eassumption.
       + intros y Hy. apply in_or_app. right. apply in_or_app. right. exact Hy.
       + eapply dom_le_sub; [exact DT|]. intros y Hy. apply in_app_or in Hy. apply in_or_app.
         destruct Hy; [left; assumption | right; apply in_or_app; left; assumption].
     - (* inside a for loop *)
       simpl in RG.
-      change (orig (LFor pre l x e i post)) with (pre ++ [SFor l x e (orig i)] ++ post) in *.
-      change (plug (LFor pre l x e i post) [call]) with (pre ++ [SFor l x e (plug i [call])] ++ post).
+      change (orig (LFor pre l x e lc els post)) with (pre ++ [SFor l x e (orig lc) els] ++ post) in *.
+      change (plug (LFor pre l x e lc els post) [call]) with (pre ++ [SFor l x e (plug lc [call]) els] ++ post).
       destruct (nocall3 _ _ _ NC) as [NCp [NCm NCq]].
       pose proof (conv3 _ _ _ _ CV) as CVm.
       eapply seq_sim; eauto.
       intros t1 t2 o' RT DT GT. unfold exec. rewrite !exec_b_single. simpl exec_s.
-      rewrite live_b_single, live_s_for in RT. simpl kn in RT.
-      rewrite conv_b_single, conv_s_for in CVm. simpl kn in CVm.
-      rewrite nocall_single in NCm. simpl in NCm. fold (nocall (orig i)) in NCm.
+      rewrite live_b_single, live_s_for in RT.
+      rewrite conv_b_single, conv_s_for in CVm.
+      rewrite nocall_single in NCm. simpl in NCm. apply andb_true_iff in NCm. destruct NCm as [NCb NCe].
+      fold (nocall (orig lc)) in NCb. fold (nocall els) in NCe.
       rewrite (eval_rel Qtrue _ t1 t2 e RT) by (intros; apply in_or_app; auto).
       destruct (eval t2 e) as [hi|]; [|apply res_rel_err; exact I].
-      eapply res_rel_loop; [| apply exec_k_sig | apply exec_k_sig | reflexivity].
-      eapply (for_sim i IH RG x (live_b post k) (M ++ defs pre ++ x :: defs (plug i [call])) (m ++ mustd pre)); try assumption.
+      eapply (for_sim lc IHlc RG x els _ (M ++ defs pre ++ x :: defs (plug lc [call])) (m ++ mustd pre)); try eassumption.
       + simpl in HC. rewrite <- app_assoc. exact HC.
+      + intros y Hy. apply in_or_app. right. apply in_or_app. right. exact Hy.
+      + eapply rel_sub; [exact RT|]. intros; apply in_or_app; auto.
+      + eapply dom_le_sub; [exact DT|]. intros y Hy. apply in_app_or in Hy. apply in_or_app.
+        destruct Hy; [left; assumption | right; apply in_or_app; left; assumption].
+    - (* inside the else-clause of a while loop *)
+      simpl in RG.
+      change (orig (LWhileE pre l c b lc post)) with (pre ++ [SWhile l c b (orig lc)] ++ post) in *.
+      change (plug (LWhileE pre l c b lc post) [call]) with (pre ++ [SWhile l c b (plug lc [call])] ++ post).
+      destruct (nocall3 _ _ _ NC) as [NCp [NCm NCq]].
+      pose proof (conv3 _ _ _ _ CV) as CVm.
+      eapply seq_sim; eauto.
+      intros t1 t2 o' RT DT GT. unfold exec. rewrite !exec_b_single. simpl exec_s.
+      rewrite live_b_single, live_s_while in RT.
+      rewrite conv_b_single, conv_s_while in CVm.
+      rewrite nocall_single in NCm. simpl in NCm. apply andb_true_iff in NCm. destruct NCm as [NCb NCe].
+      fold (nocall b) in NCb. fold (nocall (orig lc)) in NCe.
+      eapply (whileE_sim lc IHlc RG c b _ (M ++ defs pre ++ defs b) (m ++ mustd pre)); try eassumption.
+      + intros y Hy. apply in_or_app. right. apply in_or_app. right. exact Hy.
+      + eapply dom_le_sub; [exact DT|]. intros y Hy. apply in_app_or in Hy. apply in_or_app.
+        destruct Hy; [left; assumption | right; apply in_or_app; left; assumption].
+    - (* inside the else-clause of a for loop *)
+      simpl in RG.
+      change (orig (LForE pre l x e b lc post)) with (pre ++ [SFor l x e b (orig lc)] ++ post) in *.
+      change (plug (LForE pre l x e b lc post) [call]) with (pre ++ [SFor l x e b (plug lc [call])] ++ post).
+      destruct (nocall3 _ _ _ NC) as [NCp [NCm NCq]].
+      pose proof (conv3 _ _ _ _ CV) as CVm.
+      eapply seq_sim; eauto.
+      intros t1 t2 o' RT DT GT. unfold exec. rewrite !exec_b_single. simpl exec_s.
+      rewrite live_b_single, live_s_for in RT.
+      rewrite conv_b_single, conv_s_for in CVm.
+      rewrite nocall_single in NCm. simpl in NCm. apply andb_true_iff in NCm. destruct NCm as [NCb NCe].
+      fold (nocall b) in NCb. fold (nocall (orig lc)) in NCe.
+      rewrite (eval_rel Qtrue _ t1 t2 e RT) by (intros; apply in_or_app; auto).
+      destruct (eval t2 e) as [hi|]; [|apply res_rel_err; exact I].
+      eapply (forE_sim lc IHlc RG x b _ (M ++ defs pre ++ x :: defs b) (m ++ mustd pre)); try eassumption.
       + intros y Hy. apply in_or_app. right. apply in_or_app. right. exact Hy.
       + eapply rel_sub; [exact RT|]. intros; apply in_or_app; auto.
       + eapply dom_le_sub; [exact DT|]. intros y Hy. apply in_app_or in Hy. apply in_or_app.
